@@ -102,7 +102,7 @@ pub fn decode_hosts(t: &mut Tape) -> NetCase {
 }
 
 pub fn check(ctx: &mut Ctx) {
-    ctx.rule = "lists of 1-16 (sub-check big: up to 150) network rules cut from a pool of 1-4 generated URLs at arbitrary byte offsets (plain, |, ||host, ^/*, /regex/, options, exceptions, tags, badfilter twins, duplicates, junk lines) x tag subset x 1-8 requests from the same pool (1/3 perturbed by one edit); hosts: hosts-format lists; shared-token: 2-25 rules sharing one token with per-rule variation of options/tags/exception; tokenless: rules with no indexable token (fallback bucket); real-lists: slices of the lists under /repo/data. A case is non-trivial when at least one parsed rule matches a request in the per-rule linear scan; distinct = distinct (rules, tags, requests) texts.".into();
+    ctx.rule = "lists of 1-16 (sub-check big: up to 150) network rules cut from a pool of 1-4 generated URLs at arbitrary byte offsets (plain, |, ||host, ^/*, /regex/, options, exceptions, tags, badfilter twins, duplicates, junk lines) x tag subset x 1-8 requests from the same pool (1/3 perturbed by one edit); hosts: hosts-format lists; shared-token: 2-25 rules sharing one token with per-rule variation of options/tags/exception; tokenless: rules with no indexable token (fallback bucket); long-url: URLs of 40-126 tokens and hosts of up to 14 labels with rules cut from the tail of the URL; real-lists: slices of the lists under /repo/data. A case is non-trivial when at least one parsed rule matches a request in the per-rule linear scan; distinct = distinct (rules, tags, requests) texts.".into();
     ctx.assumptions = vec![
         "per-rule oracle = NetworkFilter::matches with a fresh RegexManager on every successfully parsed line".into(),
         "badfilter cancellation by the library's own ids (C04 checks those ids)".into(),
@@ -121,6 +121,8 @@ pub fn check(ctx: &mut Ctx) {
     drive(ctx, "shared-token", n, 400, &|t| gen::fuse_case(t), &check_case);
     let n = ctx.tier.pick(60_000, 600_000);
     drive(ctx, "tokenless", n, 300, &|t| gen::tokenless_case(t), &check_case);
+    let n = ctx.tier.pick(40_000, 400_000);
+    drive(ctx, "long-url", n, 600, &|t| gen::long_url_case(t), &check_case);
     // deterministic slices of the real lists under /repo/data, requests derived from their own rules
     let (per, len) = ctx.tier.pick((2, 1500), (10, 6000));
     for fc in super::c08::real_list_slices(ctx, per, len) {
